@@ -25,7 +25,12 @@ def describe(tier, seed):
         'rule': 'the C01 families (every element alone x every admissible variant incl. every length 1..99 / 1..999; '
                 'every pair x boundary variants; long-message families) in %d (configuration, codec, bitmap) '
                 'combinations, plus fixed text shorter than its width (padding side / pad character) and over-length '
-                'variable values (LLVAR 100, 101, 999; LLLVAR 1000, 1001). Oracle: dumps(msg) is byte-identical to the '
+                'variable values (LLVAR 100, 101, 999; LLLVAR 1000, 1001); a configuration of wide elements (FIXED text '
+                'of 1002..2000 characters, 30/60-digit numbers, 31/40-digit decimals); numbers and decimals handed '
+                'over as text (plain, zero-filled; with surplus leading zeros the number fits, so the reference bytes or '
+                'a refusal are accepted, a shifted message is not); every message encoded again with its keys inserted '
+                'in reverse order; calls with keyword options, positional arguments and codec aliases by turns; the '
+                'package default configuration replaced between calls that pass no iso_config. Oracle: dumps(msg) is byte-identical to the '
                 'reference encoder written from the documentation (MTI, bitmap with bit 1 and exactly the present '
                 'bits, ascending elements, padding, decimal length prefixes, codec, binary ICC); loads(those bytes) '
                 'is key-for-key equal to the reference decoder (PDSxxxx, TAGxxxx/ICC_DATA, DE43_* included); an '
